@@ -29,6 +29,7 @@ func runC07(c *Ctx, r *Report) {
 	c07SubkeyAlignment(c, r)
 	c07ParseErrors(c, r)
 	c07Numerical(c, r)
+	c07RowInit(c, r)
 	c07Bounds(c, r)
 }
 
@@ -378,4 +379,107 @@ func c14Clamp2(c *Ctx, r *Report) {
 		o.Key = strings.Replace(o.Key, "C14-a", "C07-e", 1)
 		r.Obs = append(r.Obs, o)
 	}
+}
+
+// c07RowInit (C07-f/row-init): the accumulating group folds every column from
+// its initial value. A freshly made row must be filled with the columns'
+// initial values - a loop over the column definitions that stores each
+// definition's initial into the cell of its own index - before the row is
+// visible to the column expressions (which may read *other* columns).
+func c07RowInit(c *Ctx, r *Report) {
+	const rule = "C07-f/row-init"
+	fi := c.MustFunc(r, rule, aggPkg, "(*AccumulatingGroup).Sample")
+	if fi == nil {
+		return
+	}
+	info := fi.Pkg.TypesInfo
+	fg := NewFGraph(fi.Decl.Body, info)
+	n := 0
+	ast.Inspect(fi.Decl.Body, func(x ast.Node) bool {
+		as, ok := x.(*ast.AssignStmt)
+		if !ok || len(as.Lhs) != 1 || len(as.Rhs) != 1 {
+			return true
+		}
+		mk, ok := ast.Unparen(as.Rhs[0]).(*ast.CallExpr)
+		if !ok || calleeName(info, mk) != "builtin.make" || len(mk.Args) < 2 {
+			return true
+		}
+		sl, ok := info.TypeOf(mk).Underlying().(*types.Slice)
+		if !ok {
+			return true
+		}
+		if b, ok := sl.Elem().Underlying().(*types.Basic); !ok || b.Kind() != types.String {
+			return true
+		}
+		row := identObj(info, as.Lhs[0])
+		if row == nil {
+			return true
+		}
+		n++
+		// initialisation loops: for i, d := range X { row[i] = d.initial }
+		var initNodes []int
+		ast.Inspect(fi.Decl.Body, func(y ast.Node) bool {
+			rs, ok := y.(*ast.RangeStmt)
+			if !ok || rs.Key == nil || rs.Value == nil {
+				return true
+			}
+			k, v := identObj(info, rs.Key), identObj(info, rs.Value)
+			for _, st := range rs.Body.List {
+				a2, ok := st.(*ast.AssignStmt)
+				if !ok || a2.Tok != token.ASSIGN || len(a2.Lhs) != 1 || len(a2.Rhs) != 1 {
+					continue
+				}
+				ix, ok := ast.Unparen(a2.Lhs[0]).(*ast.IndexExpr)
+				if !ok || identObj(info, ix.X) != row || identObj(info, ix.Index) != k {
+					continue
+				}
+				if se, ok := ast.Unparen(a2.Rhs[0]).(*ast.SelectorExpr); ok && identObj(info, se.X) == v {
+					if fv := fieldVar(info, se); fv != nil && strings.Contains(strings.ToLower(fv.Name()), "init") {
+						// the loop as a whole is the barrier (zero iterations = zero columns = nothing to fill)
+						for _, nd := range fg.Nodes {
+							if nd.Block != nil && nd.Block.Stmt == ast.Stmt(rs) {
+								initNodes = append(initNodes, nd.ID)
+							}
+						}
+					}
+				}
+			}
+			return true
+		})
+		// every path from the make to a read of the row by an expression (BuildKey call / closure creation) crosses the init loop
+		mkNode := fg.NodeOf(as.Pos())
+		isInit := func(nd *FNode) bool {
+			for _, id := range initNodes {
+				if nd.ID == id {
+					return true
+				}
+			}
+			return false
+		}
+		leak := ""
+		for _, nd := range fg.Nodes {
+			if nd.N == nil || nd.ID == mkNode || isInit(nd) {
+				continue
+			}
+			reads := false
+			ast.Inspect(nd.N, func(y ast.Node) bool {
+				if ce, ok := y.(*ast.CallExpr); ok {
+					if se, ok := ce.Fun.(*ast.SelectorExpr); ok && se.Sel.Name == "BuildKey" {
+						reads = true
+					}
+				}
+				return true
+			})
+			if reads && fg.Reaches(mkNode, nd.ID, isInit) {
+				leak = c.Pos(nd.N.Pos())
+			}
+		}
+		r.Check(len(initNodes) > 0 && leak == "", rule, fi.Name, stmtStr(as), c.Pos(as.Pos()), "order: the new row is filled with the columns' initial values before any column expression is evaluated",
+			"a freshly made row can reach the evaluation of the column expressions (at "+leak+") without having been filled with the columns' initial values: a column that refers to another column sees an empty cell instead of that column's initial value on the first sample of a group, and the fold starts from the wrong state")
+		return true
+	})
+	if n == 0 {
+		r.Bad(rule, fi.Name, "row creation", c.Pos(fi.Decl.Pos()), "creation of a new row not found")
+	}
+	r.Floor(rule, 1, "row creation in AccumulatingGroup.Sample")
 }
